@@ -48,6 +48,10 @@ spec fn ph(f: Flow) -> Option<usize> {
     }
 }
 
+spec fn is_load(op: Opcode) -> bool {
+    op is LoadI64 || op is LoadStr || op is LoadNil || op is LoadCell
+}
+
 // variant index of an opcode (what a backpatch preserves)
 spec fn opk(op: Opcode) -> int {
     match op {
